@@ -63,6 +63,26 @@ spec fn wf<R: Reader<Offset = usize>, S: EvaluationStorage<R>>(a: Evaluation<R, 
     &&& forall|i: int| 0 <= i < a.expression_stack@.len() ==> inside((#[trigger] a.expression_stack@[i]).1.rv(), a.expression_stack@[i].0.rv())
 }
 
+/// "Nothing is left to run" (DWARF 5 2.5.1.5, DW_OP_call2/call4/call_ref: the callee is evaluated as if it stood at the place
+/// of the call, "after which control is transferred back" to the operation following the call; 2.6.1.2: a composite location
+/// description is the whole list of pieces of the *whole* expression).  With nested calls the whole expression is finished
+/// iff the current (innermost) expression is exhausted AND every saved caller frame is exhausted too -- an exhausted callee
+/// alone is NOT the end while some caller still has operations after its call.
+spec fn whole_done<R: Reader<Offset = usize>, S: EvaluationStorage<R>>(a: Evaluation<R, S>) -> bool {
+    &&& a.pc.rv().len == 0
+    &&& forall|i: int| 0 <= i < a.expression_stack@.len() ==> (#[trigger] a.expression_stack@[i]).0.rv().len == 0
+}
+
+/// DWARF 5 2.6.1.2: every piece of a composite location description is sized by its DW_OP_piece / DW_OP_bit_piece; a
+/// location description WITHOUT a following piece operation describes the whole object, hence it is the only element of
+/// the result and the evaluation is over (current expression exhausted, no caller frame pending).
+spec fn whole_object_final<R: Reader<Offset = usize>, S: EvaluationStorage<R>>(a: Evaluation<R, S>) -> bool {
+    &&& a.result@.len() == 1
+    &&& a.result@[0].size_in_bits is None
+    &&& a.pc.rv().len == 0
+    &&& a.expression_stack@.len() == 0
+}
+
 /// the request handed to the caller is the one belonging to the continuation the machine stored
 spec fn request_matches<R: Reader<Offset = usize>>(w: EvaluationWaiting<R>, r: EvaluationResult<R>) -> bool {
     match w {
